@@ -183,6 +183,29 @@ pub fn generate(sink: &mut Sink, seed: u64, thorough: bool) {
             let mut g = Gen { rng: &mut rng, exts: vec![], n: 0 };
             g.program(12)
         };
+        // double-precision float limits are rare in random programs: every sixth program is a small cloud with
+        // float intensity and colour and explicit limits
+        if rng.chance(1, 6) {
+            let f = |x: f64| Val::D(x.to_bits());
+            let proto = vec![
+                Rec { name: RName::Std("cartesianX".into()), dt: DT::F32(None, None) },
+                Rec { name: RName::Std("cartesianY".into()), dt: DT::F32(None, None) },
+                Rec { name: RName::Std("cartesianZ".into()), dt: DT::F32(None, None) },
+                Rec { name: RName::Std("intensity".into()), dt: DT::F64(None, None) },
+                Rec { name: RName::Std("colorRed".into()), dt: DT::F64(None, None) },
+                Rec { name: RName::Std("colorGreen".into()), dt: DT::F64(None, None) },
+                Rec { name: RName::Std("colorBlue".into()), dt: DT::F64(None, None) },
+            ];
+            let mut body = vec![
+                PcStmt::Il(Some((Some(f(0.1)), Some(f(0.7))))),
+                PcStmt::Cl(Some([Some(f(0.0)), Some(f(0.5)), Some(f(0.25)), Some(f(1.0)), Some(f(-1.0)), Some(f(3.0))])),
+            ];
+            for k in 0..3 {
+                let x = k as f64 * 0.3;
+                body.push(PcStmt::P(vec![Val::F(1f32.to_bits()), Val::F(2f32.to_bits()), Val::F(3f32.to_bits()), f(x), f(x), f(x + 0.1), f(x - 0.5)]));
+            }
+            prog = Program { guid: "limits".into(), stmts: vec![Stmt::Pc { guid: "pc".into(), proto, body, end: true }, Stmt::Fin] };
+        }
         // images are rare in random programs: every third program gets one more
         if rng.chance(1, 3) {
             let im = {
@@ -310,8 +333,30 @@ pub fn generate(sink: &mut Sink, seed: u64, thorough: bool) {
             if pts.is_empty() {
                 continue;
             }
-            let a = *rng.pick(&["type", "fileOffset", "length", "recordCount", "minimum", "maximum", "precision", "custom"]);
-            (*rng.pick(&pts), format!(" fx:{a}=\"{}\"", *rng.pick(&["Bogus", "0", "String", "99999999"])), "attribute")
+            // a foreign attribute with the local name of a standard one and a value that would mean something
+            let (a, v) = *rng.pick(&[
+                ("type", "Bogus"), ("type", "String"), ("type", "Integer"), ("type", "Float"), ("type", "Structure"), ("fileOffset", "0"),
+                ("fileOffset", "99999999"), ("length", "0"), ("length", "99999999"), ("recordCount", "0"), ("recordCount", "99999999"),
+                ("minimum", "0"), ("maximum", "99999999"), ("minimum", "7"), ("maximum", "-7"), ("precision", "single"), ("precision", "double"),
+                ("precision", "single"), ("scale", "2"), ("offset", "100"), ("allowHeterogeneousChildren", "0"), ("custom", "x"),
+            ]);
+            // half of the time on an element of type Float (limits, bounds, pose, …) when there is one
+            let float_pts: Vec<usize> = pts.iter().copied().filter(|&p| xml[p..].split('\n').next().map(|l| l.contains("type=\"Float\"")).unwrap_or(false)).collect();
+            // limit elements (their precision attribute decides the kind of value reported) get it most often
+            let limit_pts: Vec<usize> = float_pts.iter().copied().filter(|&p| {
+                let start = xml[..p].rfind('\n').map(|i| i + 1).unwrap_or(0);
+                xml[start..p].starts_with("<intensityM") || xml[start..p].starts_with("<color")
+            }).collect();
+            if !limit_pts.is_empty() {
+                sink.stat("xml_with_float_limits");
+            }
+            if !limit_pts.is_empty() && rng.chance(1, 2) {
+                sink.stat("insert_attribute_precision_on_limit");
+                (*rng.pick(&limit_pts), format!(" fx:precision=\"{}\"", *rng.pick(&["single", "double"])), "attribute")
+            } else {
+                let at = if !float_pts.is_empty() && rng.chance(1, 2) { *rng.pick(&float_pts) } else { *rng.pick(&pts) };
+                (at, format!(" fx:{a}=\"{v}\""), "attribute")
+            }
         } else if rng.chance(1, 2) {
             match shadow_insertion(&mut rng, &xml) {
                 Some(x) => x,
